@@ -35,6 +35,37 @@ CHECKS['C13'] = {
 	'ref': 'DESIGN.md §5 C13, §10',
 }
 
+CHECKS['C14'] = {
+	'text': 'Lean theorems over an executable model of seqs.expand, ReflectionSerializer.serialize/deserialize/_deserialize_attrs and SymbolDB.to_json/import_json/_order_keys/unload/completed: expand is the pre-order flattening; rebuild∘flatten = id for every attribute forest of any width and depth (multi-digit index paths, path-string codec); same-parent paths are consecutive after the depth sort; import idempotence and completed; export-then-import restores every key of the module; the export-order law (import never refers to a later key) for every loaded table with acyclic class entries (true since fix commit 95feeba). Tied to the code by seven correspondence streams (real Symbol/Reflection/SymbolDB/ReflectionSerializer objects over stub nodes, generated multi-module programs, real modules); the law search runs on the real code alone.',
+	'note': TB + ' SymOK and Loaded are hypotheses evaluated on every real table per run (always true so far). Node DSNs are opaque; only canonical decimal index components are modelled; fuel sufficiency of the order walk is proved under the rank hypothesis only.',
+	'technique': 'Lean 4 proof (mutual structural induction over nested forests, invariants along the import/export loops) + differential correspondence + law search',
+	'ref': 'DESIGN.md §5 C14, §10',
+}
+CHECKS['C15'] = {
+	'text': 'Full on the model: view(loads(json(dumps t))) = view t proved for every tree shape on which dumps succeeds (guard exact: fails only on non-lark metas); everything derived through the Entry interface (entry cache, Nodes.source_map, quotation per path) is equal on restored and fresh trees. Tied to the code by three correspondence streams (real parse trees, random lark trees incl. malformed, loads on damaged dumps) and searched field by field through the real on-disk cache (fresh vs restored views and nodes, two generations).',
+	'note': TB + ' JSON text level is executed, not modelled.',
+	'technique': 'Lean 4 proof (structural induction over the lark tree model) + differential correspondence + real-cache search',
+	'ref': 'DESIGN.md §5 C15, §10',
+}
+CHECKS['C16'] = {
+	'text': 'Partial: tranp-side span selection (tree meta / token positions / zeros), the minus-one shift, quotation arithmetic (marked columns = [begin,end) on single-line spans, to end of line on multi-line spans, tabs one-for-one), no quotation for position-less nodes, the self-hosted ErrorCollector caret range and survival of spans through the cache are proved on the model; nesting (child inside parent, siblings ordered) is proved under the hull model of lark propagate_positions, which is an assumption streamed against lark\'s real metas. That a span\'s text holds exactly the node\'s tokens is search-only (CPython tokenize as oracle), repeated on cache-restored trees.',
+	'note': TB + ' lark propagate_positions is assumed (hull model) and validated by the span-hull stream; CR line endings and non-UTF-8 input are outside the model.',
+	'technique': 'Lean 4 proof (list/offset arithmetic, hull model) + four correspondence streams + CPython-tokenize oracle search',
+	'ref': 'DESIGN.md §5 C16, §10',
+}
+CHECKS['C17'] = {
+	'text': 'Full on the model with floats abstract: for every expression of the folder fragment (decimal and hex ints, floats, strings, unary sign, parentheses, the ten operators in flat chains, int/float/str casts, bare and Enum.Member.value references), every environment and every interpretation of float, whenever CPython yields a value the folder yields a value of the same type and content or refuses (agree: no guard; sound/refuse: guard H4 no 0X literal); folding a flat chain equals evaluating CPython\'s left-nested tree. Tied to the code by generated operator tables and three correspondence streams (real LiteralEvaluator.exec vs model with a symbolic-float oracle protocol; CPython eval vs evalPy; octal escape decoder), searched on the real code alone (exec(e) == eval(e) or an application error) including every formerly excluded region.',
+	'note': TB + ' Reflections.type_of outcomes are observed, not modelled (C03). Recursion limit modelled as fuel. %-formatting, bytes, f-strings and escapes are outside evalPy (counted as unsupported). One known finding: escape-merge-concat.',
+	'technique': 'Lean 4 proof (induction on fuel and flat chains, abstract float signature) + generated tables + differential correspondence + CPython oracle search',
+	'ref': 'DESIGN.md §5 C17, §10',
+}
+CHECKS['C18'] = {
+	'text': 'Lean theorems over an executable model of BlockParser / DecoratorHelper._parse / Param.parse for every fragment of the inductive grammar (atoms, simple quoted strings possibly containing brackets and the other quote, () [] {} <> groups, unbounded nesting): break_separator equals the exact top-level split (cuts only at top-level delimiters, rejoin, balanced pieces); break_last_block(prefix+group) = (prefix, inside) plus the IndexError branch; decorator path/pieces/join_args and labelled vs positional arguments; parameter type/name/default for every default fragment; first block of parse_bracket is the whole group. Tied to the code by a translator for _all_pair, four correspondence streams over every helper and law searches with an independent scanner on the real helpers.',
+	'note': TB + ' Strings are simple (no own quote, no escapes); brackets argument has two characters in the theorems; _analyze_entry/_parse/_parse_block/parse/parse_pair, multi-character delimiters and unbalanced text are correspondence-only; "every further parse_bracket block is balanced" is search-only.',
+	'technique': 'Lean 4 proof (induction on an inductive fragment grammar) + differential correspondence + law search with an independent scanner',
+	'ref': 'DESIGN.md §5 C18, §10',
+}
+
 NOT_YET = {
 }
 
